@@ -12,6 +12,7 @@ import (
 	"os"
 	"path/filepath"
 	"regexp"
+	"runtime"
 	"sort"
 	"strings"
 	"sync"
@@ -183,6 +184,7 @@ type PropResult struct {
 	EngineFail  []engineFail
 	EngineNotes []string
 	RelNotes    []string
+	Retried     int
 }
 
 type engineFail struct{ Fn, Why string }
@@ -229,6 +231,24 @@ func contractMentions(c *Contract, id string) bool {
 	return false
 }
 
+// loadFactor is max(1, 1-minute load average / cores), capped at 6.
+func loadFactor() float64 {
+	data, err := os.ReadFile("/proc/loadavg")
+	if err != nil {
+		return 1
+	}
+	var l1 float64
+	fmt.Sscanf(string(data), "%f", &l1)
+	f := l1 / float64(runtime.NumCPU())
+	if f < 1 {
+		return 1
+	}
+	if f > 6 {
+		return 6
+	}
+	return f
+}
+
 func runProperty(p *Program, cfg *PropConfig, tier string, verbose bool) *PropResult {
 	res := &PropResult{}
 	keys := targetFunctions(p, cfg)
@@ -236,6 +256,10 @@ func runProperty(p *Program, cfg *PropConfig, tier string, verbose bool) *PropRe
 	if tier == "thorough" {
 		opt = dischargeOpts{timeoutMs: 60000, workers: 16, all: true}
 	}
+	// wall-clock solver caps are scaled by the machine load so that a busy machine (several checks
+	// running side by side) does not turn discharged obligations into time-outs
+	lf := loadFactor()
+	opt.timeoutMs = int(float64(opt.timeoutMs) * lf)
 	solveStart := time.Now()
 	type fnOut struct {
 		rep  *FnReport
@@ -283,6 +307,33 @@ func runProperty(p *Program, cfg *PropConfig, tier string, verbose bool) *PropRe
 		}()
 	}
 	wg.Wait()
+	// claimed obligations that timed out are retried a few at a time with a longer cap (bounded budget)
+	{
+		inBaseNorm := map[string]bool{}
+		for _, n := range loadBaseline()[cfg.ID] {
+			inBaseNorm[normOb(n)] = true
+		}
+		var retry []*Obligation
+		for _, o := range outs {
+			for _, ob := range o.mine {
+				if ob.Result != nil && ob.Result.Status == "timeout" && inBaseNorm[normOb(ob.Name)] {
+					retry = append(retry, ob)
+				}
+			}
+		}
+		deadline := time.Now().Add(240 * time.Second)
+		for i := 0; i < len(retry) && time.Now().Before(deadline); i += 4 {
+			j := i + 4
+			if j > len(retry) {
+				j = len(retry)
+			}
+			for _, ob := range retry[i:j] {
+				ob.Result = nil
+			}
+			discharge(retry[i:j], dischargeOpts{timeoutMs: opt.timeoutMs * 4, workers: 4, all: opt.all})
+			res.Retried += j - i
+		}
+	}
 	for i, k := range keys {
 		rep := outs[i].rep
 		res.Reports = append(res.Reports, rep)
@@ -451,6 +502,8 @@ func (res *PropResult) report(p *Program, cfg *PropConfig, tier string, writeBas
 		for _, s := range all {
 			if s.Status == "discharged" && s.MaxMs < 3000 {
 				stable = append(stable, s.Name)
+			} else if inBase[s.Name] {
+				fmt.Printf("  baseline: dropping %s (%s, %d ms)\n", s.Name, s.Status, s.MaxMs)
 			}
 		}
 		baseline[cfg.ID] = stable
@@ -557,6 +610,7 @@ func writeEvidence(p *Program, cfg *PropConfig, tier string, res *PropResult, al
 		"known_findings_printed":         knownPrinted,
 		"functions_not_modelled":         res.EngineNotes,
 		"bounded":                        cfg.Bounded,
+		"solver_caps":                    fmt.Sprintf("per-obligation wall-clock cap scaled by load factor %.2f; %d timed-out claimed obligations retried with a 4x cap", loadFactor(), res.Retried),
 		"explanation":                    "each obligation is pathcondition ∧ ¬goal checked unsat by an SMT solver, per path of the real function's SSA, for all inputs and all loop iterations (loops are cut at invariants)",
 	}
 	if level != "proof" {
